@@ -1632,7 +1632,8 @@ pub fn increase_ix(rng: &mut Rng, la: &LiqAccounts, pool: &decode::Pool, lo: i32
                 let diff = top.saturating_sub(pl);
                 if diff > 0 {
                     let odd = diff >> diff.trailing_zeros();
-                    let k = 1 + rng.below(1 << rng.below(20)) as u128;
+                    let sh = rng.below(20);
+                    let k = 1 + rng.below(1 << sh) as u128;
                     if let Some(b) = odd.checked_mul(k).filter(|b| *b <= u64::MAX as u128 && *b > 0) {
                         mb = b as u64;
                         if pool.tick_current_index >= hi || rng.chance(1, 2) {
